@@ -8,8 +8,11 @@ CHECK = {
         unit("barrier-state", "barrier", ["barrier/c10_state_test.go"], "^TestVerif_C10_",
              quick={"checks": 10000, "shards": 1, "cap": 600, "steps": 30},
              thorough={"checks": 20000, "shards": 16, "cap": 2400, "steps": 50}),
-        unit("crash-rotation", "vault", ["vault/c10_test.go"], "^TestVerif_C10_",
+        unit("crash-rotation", "vault", ["vault/c10_test.go"], "^TestVerif_C10_CrashInRotation$",
              quick={"checks": 25, "shards": 1, "cap": 900},
              thorough={"checks": 150, "shards": 16, "cap": 3000}),
+        unit("namespace-barrier", "vault", ["vault/c10ns_test.go", "vault/c10_test.go"], "^TestVerif_C10_NamespaceBarrier$",
+             quick={"checks": 200, "shards": 1, "cap": 900, "steps": 25, "shrinktime": "120s"},
+             thorough={"checks": 400, "shards": 16, "cap": 3000, "steps": 50, "shrinktime": "120s"}),
     ],
 }
